@@ -209,3 +209,30 @@ PROPS['C09'] = dict(
            dict(name='dm_m3', harness='h_dm', defs=['MODEL=3', 'NOTRUNC'], split={'gs': R(16)}, resolve_selects=True, max_loop=20000, tiers=[T],
                 witnesses=['computed', 'done'])],
 )
+
+PROPS['C10'] = dict(
+    claim='FieldOperatorPart::compute (real Eigen dense product / sparseView / prune from the IR), the operator prepare() bimaps, '
+          'FieldOperatorContainer::computeAll and EnsembleAverage are executed with SYMBOLIC eigenvector matrices: every stored block equals '
+          'U_to^T O U_from within the documented tolerance, row/column-major copies agree, the sparse representation invariant holds, '
+          'container-produced annihilation parts are the adjoints of the creation parts.',
+    bounds={Q: 'Hubbard atom (1x1 blocks), spinless dimer (blocks 1,2,1 with a symbolic 2x2 eigenvector matrix); c+_i, c_i, c+_i c_j for all i,j; '
+               'one-by-one and container paths', T: 'additionally one 4x4 block (symmetries ignored), time-capped'},
+    assumptions=['double read as exact real', 'eigenvector matrices are arbitrary real matrices (orthonormality is not needed for the rotation '
+                 'identity; the CAR then follow from C05 and U^T U = 1, mathematical step)'],
+    outside=['{c_i,c+_j} = delta_ij assembled over blocks as a solver query (needs U^T U = 1 as polynomial constraints; not attempted)',
+             'blocks larger than 2x2 in the quick tier', 'complex build'],
+    units=[dict(name='fop_m0_single', harness='h_fop', defs=['MODEL=0', 'PATH=0'], split={'op': R(6)}, max_loop=20000,
+                witnesses=['done', 'creation_parts', 'ensemble_average'], validate=[{'op': 1}, {'op': 3}]),
+           dict(name='fop_m1_single', harness='h_fop', defs=['MODEL=1', 'PATH=0'], split={'op': R(6)}, max_loop=20000,
+                witnesses=['done', 'creation_parts', 'ensemble_average'], validate=[{'op': 0}, {'op': 4}]),
+           dict(name='fop_m0_container', harness='h_fop', defs=['MODEL=0', 'PATH=1'], max_loop=20000, witnesses=['done', 'annihilation_parts'],
+                validate=[{}]),
+           dict(name='fop_m1_container', harness='h_fop', defs=['MODEL=1', 'PATH=1'], max_loop=20000, witnesses=['done', 'annihilation_parts'],
+                validate=[{}]),
+           dict(name='fop_m2_oneblock_identity', harness='h_fop', defs=['MODEL=2', 'PATH=0', 'VECS=0'], split={'op': R(6)}, max_loop=20000,
+                witnesses=['done', 'creation_parts'], validate=[{'op': 1}]),
+           dict(name='fop_m2_oneblock_identity_container', harness='h_fop', defs=['MODEL=2', 'PATH=1', 'VECS=0'], max_loop=20000,
+                witnesses=['done', 'annihilation_parts']),
+           dict(name='fop_m2_single', harness='h_fop', defs=['MODEL=2', 'PATH=0'], split={'op': R(6)}, max_loop=20000, tiers=[T],
+                max_paths=400, witnesses=['done'])],
+)
